@@ -133,6 +133,41 @@ func runC11(c *Ctx) {
 		okLeave = c.SkipsOnlyAcross("doDiscardSnap#sequence-filter", rl, isAppend, "append(newSeq, si)", Clause{same}, false)
 	}
 	if !okLeave {
+		// the same loop behind a helper: h(snapst.Sequence.Revisions, snapsup.Revision())
+		for _, b := range dd.Blocks {
+			for _, in := range b.Instrs {
+				cc, ok := in.(ssa.CallInstruction)
+				if !ok {
+					continue
+				}
+				h := cc.Common().StaticCallee()
+				if h == nil || h.Pkg != dd.Pkg || len(h.Blocks) == 0 || h.Signature.Recv() != nil {
+					continue
+				}
+				si, ri := -1, -1
+				for i, a := range cc.Common().Args {
+					if IsFieldLoad(a, fRevisions) {
+						si = i
+					}
+					if VRes(0, ToFn(revObj))(a) {
+						ri = i
+					}
+				}
+				if si < 0 || ri < 0 {
+					continue
+				}
+				for _, rl := range RangeLoops(h) {
+					if rl.Coll == nil || !VParam(h, si)(rl.Coll) {
+						continue
+					}
+					isAppend := func(in ssa.Instruction) bool { _, ok := isBuiltinCall(in, "append"); return ok }
+					same := Cmp("si.Snap.Revision==revision", VField(fRevision), token.EQL, VParam(h, ri))
+					okLeave = c.SkipsOnlyAcross("doDiscardSnap#sequence-filter", rl, isAppend, "append(newSeq, si)", Clause{same}, false)
+				}
+			}
+		}
+	}
+	if !okLeave {
 		c.Check(false, "doDiscardSnap#sequence-filter-present", dd.Pos(), "", "the loop that drops exactly the discarded revision from the recorded sequence was not found or is not exact")
 	}
 
